@@ -18,7 +18,7 @@ PROPS = {
     "C01": {
         "theorems": ["SV.Props.C01.nonce_run", "SV.Props.C01.nonce_run_select", "SV.Props.C01.reachable_lists_sorted"],
         "modules": ["SV.Props.C01"],
-        "runs": [{"component": "txcache", "thorough_seeds": 3}],
+        "runs": [{"component": "txcache", "thorough_seeds": 3, "compare_kinds": ["selb"]}],
         "rule": "random add/rm/clear/sel histories over a small transaction alphabet (hash determines content) under boundary-biased configurations; distinct = distinct (operation kind, canonical output incl. full API dump) pairs observed on the implementation",
         "assumptions": [
             "Go container/heap, container/list and Go maps are modelled (extract-best over a list, lists, association lists); fees/values/balances are non-negative big integers; hash determines content",
@@ -28,7 +28,7 @@ PROPS = {
     "C02": {
         "theorems": ["SV.Props.C02.distinct_members", "SV.Props.C02.count_bound", "SV.Props.C02.gas_sum_and_budget", "SV.Props.C02.no_bad_guard", "SV.Props.C02.balances_cover", "SV.Props.C02.current_does_not_wrap", "SV.Props.C02.legacy_gas_counterexample"],
         "modules": ["SV.Props.C02"],
-        "runs": [{"component": "txcache", "thorough_seeds": 3}],
+        "runs": [{"component": "txcache", "thorough_seeds": 3, "compare_kinds": ["selb"]}],
         "rule": "random add/rm/clear/sel histories over a small transaction alphabet (hash determines content) under boundary-biased configurations; distinct = distinct (operation kind, canonical output incl. full API dump) pairs observed on the implementation",
         "assumptions": [
             "Go container/heap, container/list and Go maps are modelled (extract-best over a list, lists, association lists); fees/values/balances are non-negative big integers; hash determines content",
@@ -38,7 +38,7 @@ PROPS = {
     "C03": {
         "theorems": ["SV.Props.C03.ppu_is_floor", "SV.Props.C03.comparator_strict_total", "SV.Props.C03.pops_the_best", "SV.Props.C03.order_independent", "SV.Props.C03.stricter_limits_give_prefix", "SV.Props.C03.repeatable", "SV.Props.C03.legacy_ppu_truncates"],
         "modules": ["SV.Props.C03"],
-        "runs": [{"component": "txcache", "thorough_seeds": 3}],
+        "runs": [{"component": "txcache", "thorough_seeds": 3, "compare_kinds": ["selb"]}],
         "rule": "random add/rm/clear/sel histories over a small transaction alphabet (hash determines content) under boundary-biased configurations; distinct = distinct (operation kind, canonical output incl. full API dump) pairs observed on the implementation",
         "assumptions": [
             "Go container/heap, container/list and Go maps are modelled (extract-best over a list, lists, association lists); fees/values/balances are non-negative big integers; hash determines content",
@@ -48,7 +48,7 @@ PROPS = {
     "C04": {
         "theorems": ["SV.Props.C04.insert_is_ordered_insert", "SV.Props.C04.lists_sorted_add", "SV.Props.C04.lists_sorted_remove", "SV.Props.C04.sorted_has_no_duplicates", "SV.Props.C04.add_semantics", "SV.Props.C04.add_leaves_other_senders", "SV.Props.C04.remove_semantics", "SV.Props.C04.lookups_agree", "SV.Props.C04.trim_partial", "SV.Props.C04.trim_incomplete_F3"],
         "modules": ["SV.Props.C04"],
-        "runs": [{"component": "txcache", "thorough_seeds": 3}],
+        "runs": [{"component": "txcache", "thorough_seeds": 3, "compare_kinds": ["add", "rm", "clear"], "history_filter": "evict=0"}],
         "rule": "random add/rm/clear/sel histories over a small transaction alphabet (hash determines content) under boundary-biased configurations; distinct = distinct (operation kind, canonical output incl. full API dump) pairs observed on the implementation",
         "assumptions": [
             "Go container/heap, container/list and Go maps are modelled (extract-best over a list, lists, association lists); fees/values/balances are non-negative big integers; hash determines content",
@@ -58,7 +58,7 @@ PROPS = {
     "C05": {
         "theorems": ["SV.Props.C05.invariant_of_every_reachable_pool", "SV.Props.C05.step_add", "SV.Props.C05.step_remove", "SV.Props.C05.step_clear", "SV.Props.C05.step_evict", "SV.Props.C05.step_threshold", "SV.Props.C05.emptied_pool_reports_zero", "SV.Props.C05.no_ghost", "SV.Props.C05.legacy_F4", "SV.Props.C05.legacy_F5", "SV.Props.C05.legacy_F6"],
         "modules": ["SV.Props.C05"],
-        "runs": [{"component": "txcache", "thorough_seeds": 3}],
+        "runs": [{"component": "txcache", "thorough_seeds": 3, "compare_kinds": ["add", "rm", "clear"]}],
         "rule": "random add/rm/clear/sel histories over a small transaction alphabet (hash determines content) under boundary-biased configurations; distinct = distinct (operation kind, canonical output incl. full API dump) pairs observed on the implementation",
         "assumptions": [
             "Go container/heap, container/list and Go maps are modelled (extract-best over a list, lists, association lists); fees/values/balances are non-negative big integers; hash determines content",
@@ -68,7 +68,7 @@ PROPS = {
     "C06": {
         "theorems": ["SV.Props.C06.sender_count_bound", "SV.Props.C06.sender_bytes_partial", "SV.Props.C06.eviction_postcondition", "SV.Props.C06.pool_bounds_after_add", "SV.Props.C06.no_pool_wide_drop_when_disabled"],
         "modules": ["SV.Props.C06"],
-        "runs": [{"component": "txcache", "thorough_seeds": 3}],
+        "runs": [{"component": "txcache", "thorough_seeds": 3, "compare_kinds": ["add", "rm", "clear"]}],
         "rule": "random add/rm/clear/sel histories over a small transaction alphabet (hash determines content) under boundary-biased configurations; distinct = distinct (operation kind, canonical output incl. full API dump) pairs observed on the implementation",
         "assumptions": [
             "Go container/heap, container/list and Go maps are modelled (extract-best over a list, lists, association lists); fees/values/balances are non-negative big integers; hash determines content",
@@ -78,7 +78,7 @@ PROPS = {
     "C07": {
         "theorems": ["SV.Props.C07.takes_least_valuable", "SV.Props.C07.batch_size", "SV.Props.C07.stops_when_within", "SV.Props.C07.noop_within_thresholds", "SV.Props.C07.loses_nonce_suffix", "SV.Props.C07.disappear_from_every_view", "SV.Props.C07.victim_independent_of_order"],
         "modules": ["SV.Props.C07"],
-        "runs": [{"component": "txcache", "thorough_seeds": 3}],
+        "runs": [{"component": "txcache", "thorough_seeds": 3, "compare_kinds": ["add", "rm", "clear"]}],
         "rule": "random add/rm/clear/sel histories over a small transaction alphabet (hash determines content) under boundary-biased configurations; distinct = distinct (operation kind, canonical output incl. full API dump) pairs observed on the implementation",
         "assumptions": [
             "Go container/heap, container/list and Go maps are modelled (extract-best over a list, lists, association lists); fees/values/balances are non-negative big integers; hash determines content",
